@@ -143,6 +143,31 @@ def run_partition(part, tier, seed):
         for s in SETS:
             for nm in names:
                 do(["lookup", s, nm], nontrivial=nm not in sets[s].keys)
+        # a refused re-definition of a listed name (Enum.add on an existing key) must leave the T10 value in place
+        from pyscsi.pyscsi.scsi_opcode import OpCode
+        for s_ in SETS:
+            for key in list(sets[s_].keys)[:4] + list(sets[s_].keys)[-2:]:
+                before = getattr(sets[s_], key).value
+                try:
+                    sets[s_].add(key, OpCode(key, (before ^ 0x50) & 0xFF, {}))
+                    refused = False
+                except KeyError:
+                    refused = True
+                case = ["readd", s_, key]
+                acc.case(case, nontrivial=True, key=tuple(case))
+                after = getattr(sets[s_], key).value
+                if not refused or after != before:
+                    acc.violation("readd/%s" % ("accepted" if not refused else "value_changed"),
+                                  "%s.add(%r, other code) %s; %s.%s is now %#04x (T10 %#04x)" % (s_, key, "was refused" if refused else "was ACCEPTED", s_, key, after, before), case)
+        for key in ("GOOD", "BUSY", "CHECK_CONDITION"):
+            before = getattr(E.SCSI_STATUS, key)
+            try:
+                E.SCSI_STATUS.add(key, before ^ 0x80)
+            except KeyError:
+                pass
+            acc.evaluations += 1
+            if getattr(E.SCSI_STATUS, key) != before:
+                acc.violation("readd/status_value_changed", "SCSI_STATUS.%s changed from %#x to %#x by a re-definition attempt" % (key, before, getattr(E.SCSI_STATUS, key)), ["status", key])
         # afterwards the tables are walked again: every value must still be the T10 one
         for s in SETS:
             for key in sets[s].keys:
